@@ -258,17 +258,20 @@ def r3_channels(ctx, rep, R='C02.R3'):
               'StartUpFailure entries are not routed to the None layer', key='import:layer-none',
               func=tf.qualname, where=ctx.where(tf, tf.node))
     fg = m.func('find.Find.global_setup')
+    from .common import sources_of, local_assignments
     pops = [n for n in ast.walk(fg.node) if isinstance(n, ast.Call) and
             isinstance(n.func, ast.Attribute) and n.func.attr == 'pop' and n.args and
             isinstance(n.args[0], ast.Constant) and n.args[0].value is None]
     stores = [n for n in ast.walk(fg.node) if isinstance(n, ast.Assign) and any(
-        alias_dotted(fg.node, t) == 'self.runner.import_errors' for t in n.targets)]
+        (alias_dotted(fg.node, t) or '') == 'self.runner.import_errors' for t in n.targets)]
     okf = len(pops) == 1 and len(stores) == 1
     if okf:
-        tgt = [dotted(t) for n in ast.walk(fg.node) if isinstance(n, ast.Assign) and n.value is pops[0]
-               for t in n.targets]
-        okf = bool(tgt) and tgt[0] in {dotted(x) for x in ast.walk(stores[0].value)
-                                      if isinstance(x, (ast.Attribute, ast.Name))}
+        # every name / attribute the popped value is bound to (chained assignment included)
+        held = {dotted(t) for n in ast.walk(fg.node) if isinstance(n, ast.Assign) and n.value is pops[0]
+                for t in n.targets if dotted(t)}
+        la = local_assignments(fg.node)
+        src = sources_of(stores[0].value, la)
+        okf = bool(held & src)
     rep.check(okf, R, 'Find.global_setup: tests.pop(None) -> Runner.import_errors',
               'the None layer (import failures) is not stored in Runner.import_errors',
               key='import:runner', func=fg.qualname, where=ctx.where(fg, fg.node))
